@@ -102,7 +102,8 @@ func (t *WeightedMerkleTrie) insert(node Node, prefix, key []byte, value Node) (
 		}
 		if v, ok := node.(*valueNode); ok {
 			newVal := value.(*valueNode).value
-			if bytes.Equal(v.value, newVal) {
+			// nothing to do only when the weight is the same too
+			if bytes.Equal(v.value, newVal) && v.Weight() == value.Weight() {
 				return 0, v, nil
 			}
 			change := int64(value.Weight()) - int64(v.Weight())
